@@ -80,3 +80,9 @@ package api
 //@   ensures err != nil ==> res == nil
 //@   ensures err == nil ==> res != nil && fresh(res)
 //@   modifies nothing
+
+// protobuf decoding of a stored pin (glue over the generated pb code; not verified in this build)
+//@ func (pin *Pin) ProtoUnmarshal
+//@   opts trusted
+//@   ensures forall o *Pin :: o != pin ==> *o == old(*o)
+//@   modifies heap(Pin)
